@@ -107,6 +107,9 @@ class Tree(object):
         alpha = spec.get("alpha", "exact")
         n = spec.get("ndates", 4)
         m = spec.get("mult", {})
+        if shape in ("T3", "T1lazy"):
+            m = {}  # securities named by strings are created by the library: multiplier 1 whatever the spec says
+        self.mult = dict(m)  # the multipliers the driver asks for (the oracle's, see snapshot)
         self.fi = shape in ("F1", "F2")
 
         def S(name):
@@ -148,8 +151,8 @@ class Tree(object):
             root = bt.FixedIncomeStrategy("r", [], children=ch)
             cols = ["f", "c", "h", "e", "ch"]
         elif shape == "F2":
-            sf = bt.FixedIncomeStrategy("sf", [], children=[bt.FixedIncomeSecurity("f"), bt.CouponPayingSecurity("c")])
-            root = bt.FixedIncomeStrategy("r", [], children=[sf, bt.Security("e"), bt.HedgeSecurity("h")])
+            sf = bt.FixedIncomeStrategy("sf", [], children=[bt.FixedIncomeSecurity("f", multiplier=m.get("f", 1)), bt.CouponPayingSecurity("c", multiplier=m.get("c", 1))])
+            root = bt.FixedIncomeStrategy("r", [], children=[sf, bt.Security("e", multiplier=m.get("e", 1)), bt.HedgeSecurity("h", multiplier=m.get("h", 1))])
             cols = ["f", "c", "e", "h"]
         else:
             raise KeyError(shape)
@@ -162,6 +165,10 @@ class Tree(object):
                 kw["cost_long"] = frame(COST_LONG[alpha], n, cp)
             if carry in (True, "short_only"):
                 kw["cost_short"] = frame(COST_SHORT[alpha], n, cp)
+            if carry == "split":
+                # each table lists only some of the securities: long costs for one, short costs for the other
+                kw["cost_long"] = frame(COST_LONG[alpha], n, [c for c in cp if c != "c"] or cp[:0])
+                kw["cost_short"] = frame(COST_SHORT[alpha], n, [c for c in cp if c == "c"])
         else:
             self.data = frame(TABLES[alpha], n, cols)
         if "prices" in spec:  # explicit override {ticker: [..]}
@@ -272,7 +279,11 @@ class Tree(object):
             n.temp = dict(op[2])
             if "weights" in n.temp:
                 n.temp["weights"] = dict(n.temp["weights"])
-            getattr(bt.algos, op[3])()(n)
+            args = list(op[4]) if len(op) > 4 else []
+            getattr(bt.algos, op[3])(*args)(n)
+            if op[3] == "CapitalFlow":
+                # the driver's own tally: a flow into that node on the current date
+                self.adjust_log.append((self.i, tuple(op[1]), float(args[0]), True))
         else:
             raise KeyError(k)
         return True
@@ -327,7 +338,7 @@ def snapshot(tree):
             d["cls"] = type(n).__name__
             # the multiplier the DRIVER asked for (not the node's own attribute: a constructor
             # that loses the argument must not make the oracle agree with it)
-            d["mult"] = float(tree.spec.get("mult", {}).get(n.name, 1))
+            d["mult"] = float(tree.mult.get(n.name, 1))
             d["mult_attr"] = f(n.multiplier)
             # value/weight first: reading `price` re-marks the security on its own and
             # would mask a security that the tree update skipped
